@@ -379,7 +379,13 @@ func run(r *core.Run) {
 		pats := lebPatterns()
 		r.Case(en.idx, "leb128")
 		for pi, pat := range pats {
-			en.each("leb128", bitsOfBytes(pat), lebGroups, pi%509 == 3 || len(pat) > 2)
+			slot := -1
+			if len(pat) == 2 && r.Quick() {
+				// quick tier: each of the 16384 two group encodings at one (alignment, fill)
+				// slot rotating with the encoding; one group and boundary encodings at all 16
+				slot = (pi ^ pi>>4 ^ pi>>8 ^ pi>>12) & 15
+			}
+			en.eachSlot("leb128", bitsOfBytes(pat), lebGroups, pi%509 == 3 || len(pat) > 2, slot)
 		}
 		r.Extra("leb128_encodings", len(pats))
 	})
